@@ -5,36 +5,41 @@ import vlib
 PROOFS = ["C05/Refuted.vo", "C05/ProofsBase.vo", "C05/ProofsChol.vo", "C05/ProofsLdl.vo", "C05/ProofsHouse.vo", "C05/ProofsGivens.vo",
           "C05/ResidProofs.vo", "C05/ProofsHouse2.vo", "C05/ProofsBlock.vo", "C05/ProofsTrace.vo", "C05/ProofsHess.vo",
           "C05/ProofsGS.vo", "C05/ProofsLdl2.vo", "C05/ProofsChol2.vo", "C05/ProofsTridiag.vo", "C05/ProofsBidiag.vo", "C05/ProofsTridiag2.vo", "C05/ProofsOpts.vo", "C05/ProofsBand.vo", "C05/ProofsTraceTie.vo"]
+# round 5: fuelled loop models of the iterative routines (ModelIter), their specification vocabulary and proofs
+PROOFS += [f for f in ["C05/ModelIter.vo", "C05/SpecIter.vo", "C05/ProofsIterSymSweep.vo", "C05/ProofsIterSymLoop.vo",
+                       "C05/ProofsIterSvdSweep.vo", "C05/ProofsIterSvdLoop.vo", "C05/ProofsIterFrSweep.vo", "C05/ProofsIterFrLoop.vo"]
+           if os.path.exists(os.path.join(vlib.COQ, f[:-1]))]
 # round 3: optional correspondence files of the extra streams (Float32 paths, re-derived step traces)
 EXTRA_STREAMS = [("cases32", "C05/Corr32", "case32", "correspondence C05.Corr32 (binary32 replay of the Float32/Real32 paths)"),
-                 ("tcases", "C05/CorrTrace", "tcase", "correspondence C05.CorrTrace (re-derived step trace of an iterative routine)")]
+                 ("tcases", "C05/CorrTrace", "tcase", "correspondence C05.CorrTrace (re-derived step trace of an iterative routine)"),
+                 ("icases", "C05/CorrIter", "icase", "correspondence C05.CorrIter (whole run of an iterative routine recomputed by the fuelled loop model)"),
+                 ("hcases", "C05/Corr", "hcase", "correspondence C05.Corr on InSitu-reuse histories (second run vs the buffer-free model / a fresh call)")]
 TARGETS = ["Base/Num.vo", "Base/Corr.vo", "C05/Model.vo", "C05/Corr.vo", "C05/Resid.vo", "C05/Spec.vo", "C05/SpecTest.vo"] \
-          + [t + ".vo" for _, t, _, _ in EXTRA_STREAMS if os.path.exists(os.path.join(vlib.COQ, t + ".v"))] \
+          + [t + ".vo" for _, t, _, _ in EXTRA_STREAMS if t != "C05/Corr" and os.path.exists(os.path.join(vlib.COQ, t + ".v"))] \
           + PROOFS + ["C05/Props.vo"]
 PROPS = ["C05/Props.v"]
-PARTIAL = ("Theorems (over R, all sizes) cover the direct routines: Cholesky (soundness and completeness), LDL, forced-PD LDL "
-           "(incl. equality with LDL when the bounds are inactive), Householder vector (P x = +-|x| e1) and application "
-           "(= P M / M P), Givens rotation, Gram-Schmidt at HEAD (Q R = A unconditionally, R upper triangular, buffer "
-           "independence, Q^T Q = I for independent columns) and the Hessenberg reduction (U orthogonal, U H U^T = A, H upper "
-           "Hessenberg) and the bidiagonalisation at HEAD (U, V orthogonal, U B V^T = A, B upper bidiagonal). They are about the hand-written model coq/C05/Model.v, tied to the Go code by bit-exact replay on "
-           "primitive floats (Float64 fast path and Real64 generic path). The tridiagonalisation at HEAD is proved as well (every n, every "
-           "symmetric A: U orthogonal, U T U^T = A, T symmetric tridiagonal; via the symmetric rank-2 update identity "
-           "A - nu w^T - w nu^T = P A P proved for every size). The banded Givens shortcuts equal the full rotation on banded input; the factors do not depend on which "
-           "accumulators (ComputeU / ComputeV) are requested. The Float32 / Real32 paths of the Cholesky family are replayed "
-           "bit-exactly on a binary32 carrier (forced-PD mixes float64 and float32 and is written out separately in Corr32.v; "
-           "no theorem is stated about that variant). The iterative routines (QR algorithm symmetric and Francis, SVD; "
-           "eigensystem, msqrt, msqrtInv on top of them) have no closed model: the trace-machine invariant (any sequence of "
-           "valid Givens/reflector steps preserves U H U^T resp. U B V^T and orthogonality) is proved and tied per run by a "
-           "re-derived trace (lock-step copy of the control skeleton in the harness calling the same exported primitives, "
-           "final factors bit-equal to the library's, steps replayed on the float models inside Coq, every logged (c,s) / "
-           "(beta,nu) checked in exact dyadic arithmetic: |c^2+s^2-1| <= 8u, beta = 0 or |beta nu^T nu - 2| <= (16+4 len)u); "
-           "the skeleton copy is hand-written (a change of the library's control flow shows as a bit mismatch, not as a "
-           "proof failure), traces longer than 250 steps and runs that do not converge are skipped, and the accumulation of "
-           "the per-step rounding defects over a trace is bounded per step only (no theorem for the product). Every run of "
-           "every iterative routine is additionally decided by the exact residual checker C05.Resid (Coq, integer arithmetic, "
-           "soundness lemma proved) demanding the full contract on the generated families incl. dense inputs of every size "
-           "1..8; convergence, termination, sorting and sign normalisation are not proved for all inputs. The step from exact "
-           "arithmetic to binary64 is bounded per sampled case only.")
+PARTIAL = ("Theorems (over R, all sizes) cover the direct routines (Cholesky soundness and completeness, LDL, forced-PD LDL, "
+           "Householder vector and application, Givens rotation and its banded shortcuts, Gram-Schmidt at HEAD, Hessenberg "
+           "reduction, bidiagonalisation and tridiagonalisation at HEAD, independence of the ComputeU / ComputeV options) and, "
+           "since round 5, the ITERATIVE routines through fuelled loop models (coq/C05/ModelIter.v: symmetric QR algorithm, "
+           "Francis QR algorithm with its 2x2 post-processing, Golub-Kahan SVD with zero-row chase and sign flips; the whole "
+           "control flow is inside the model): for EVERY fuel, epsilon and input the state keeps its structure (symmetric "
+           "tridiagonal / upper Hessenberg / upper bidiagonal), the accumulators are orthogonal, and U H U^T (U B V^T) is "
+           "reached from the input by deflation steps as coded only (each zeroes an entry that passed the routine's own "
+           "negligibility test) - every sweep in between is an exact orthogonal similarity (bulge-chasing invariants proved "
+           "for the banded / sub-block applications); with epsilon = 0 the similarity is exact; converged runs end diagonal "
+           "(symmetric, SVD with non-negative diagonal) resp. quasi upper triangular (Francis).  The models are hand-written "
+           "and tied to the Go code by bit-exact replay on primitive floats of the WHOLE run (C05.CorrIter: fresh calls, "
+           "caller-supplied non-identity InSitu buffers, second runs of InSitu-reuse histories, default and explicit Epsilon, "
+           "Float64 and Real64), next to the older re-derived step traces (C05.CorrTrace) and the exact residual checker "
+           "(C05.Resid).  NOT proved: convergence / termination for a given fuel (F-QR-HANG, F-SVD-ZERODIAG-HANG exist), the size "
+           "of the accumulated deflation perturbation (each step is bounded by the coded test, the sum is not), that the "
+           "remaining 2x2 blocks of the Francis result have complex eigenvalues, and the rounding error of the binary64 run "
+           "(bounded per sampled case by the residual checker only).  eigensystem (eigenvalue extraction, back substitution, "
+           "sort), msqrt and msqrtInv have no executable model: they are decided per run by the residual checker, and their "
+           "InSitu-reuse histories by bit-equality with a fresh call (findings F-EIG-INSITU-REUSE, F-QR-INSITU-STALE-H).  "
+           "Runs that do not converge within the sweep cap of the harness's lock-step skeleton are not replayed.  The Float32 / "
+           "Real32 Cholesky family is replayed on a binary32 carrier (no theorem for forced-PD there).")
 KF_PROPOSED = os.path.join(vlib.ROOT, "corpus/C05/known_findings_proposed.json")
 CORPUS = os.path.join(vlib.ROOT, "corpus/C05/corpus.json")
 
@@ -110,6 +115,8 @@ def eval_stream(ctx, name):
     """evaluate the shards <name>_<k>.v; returns (raw cases, indices of failing cases)"""
     mp = os.path.join(ctx.dir, name + ".meta.json")
     meta = json.load(open(mp))
+    meta["samples"] = meta.get("samples") or []      # a stream may be empty (hang budget used up before it started)
+    meta["histogram"] = meta.get("histogram") or {}
     vlib.merge_meta(ctx, meta)
     shards = sorted(glob.glob(os.path.join(ctx.dir, name + "_*.v")),
                     key=lambda p: int(os.path.basename(p)[len(name) + 1:-2]))
@@ -145,7 +152,7 @@ def run(ctx):
     ctx.cov["trusted_base"] = vlib.TRUSTED_BASE_COMMON + [
         "Coq primitive floats (binary64) reproduce Go float64 + - * / sqrt and comparisons; Go math.Pow(x,2) = x*x outside the subnormal range; Go amd64 does not fuse multiply-add",
         "binary32: Go float32 + - * / sqrt = SpecFloat.binary_normalize 24 128 of the binary64 result (double rounding innocuous, 53 >= 2*24+2)",
-        "harness/c05/trace.go: hand-written lock-step copy of the control skeleton of qrAlgorithm / svd (validated per run by bit-equality with the library's result)",
+        "harness/c05/trace.go: hand-written lock-step copy of the control skeleton of qrAlgorithm / svd (validated per run by bit-equality with the library's result); since round 5 only a second tie and the convergence pre-check (the decision tie of the iterative routines is the Coq loop model C05.ModelIter replayed by C05.CorrIter)",
         "axioms: see 'print_assumptions' (Coq Reals: ClassicalDedekindReals.sig_forall_dec, sig_not_dec, functional_extensionality_dep)"]
     ctx.cov["partial"] = PARTIAL
     ok, failures = vlib.proof_stage(ctx, TARGETS, PROPS)
@@ -175,9 +182,23 @@ def run(ctx):
             for f in findings():
                 if f["id"] == "F-FPD-INPLACE":
                     ctx.known_finding(f["id"], "%s [%d occurrence(s) this run]" % (f["what"], nalias))
+        xh = xmeta.get("histogram") or {}
+        # round 5 findings observed by the harness on InSitu-reuse histories (never decided by the model)
+        if name == "hcases" and xh.get("eig-insitu-reuse:eigenvectors-differ-from-fresh", 0):
+            for f in findings():
+                if f["id"] == "F-EIG-INSITU-REUSE":
+                    ctx.known_finding(f["id"], "%s [%d occurrence(s) this run]" % (
+                        f["what"], xh["eig-insitu-reuse:eigenvectors-differ-from-fresh"]))
+        nstale = xh.get("stale-H:second-run-ignores-its-input", 0)
+        if name in ("hcases", "icases") and nstale:
+            for f in findings():
+                if f["id"] == "F-QR-INSITU-STALE-H":
+                    ctx.known_finding(f["id"], "%s [%d occurrence(s) in %s]" % (f["what"], nstale, name))
         for i in xbad[:5]:
-            ctx.violation({key: xraw[i], "obligation": what}, False,
-                          "model and implementation disagree (%s): %s" % (name, json.dumps(xraw[i])[:300]))
+            hist_found = name in ("icases", "hcases") and (xraw[i].get("outcome") == "differs-from-fresh")
+            ctx.violation({key: xraw[i], "obligation": what}, hist_found,
+                          ("the second run of an InSitu-reuse history differs from a call on fresh buffers and from the model (%s): %s"
+                           if hist_found else "model and implementation disagree (%s): %s") % (name, json.dumps(xraw[i])[:300]))
     known = {}          # id -> (finding, count)
     unexplained = []    # (replay object, found_input, text)
 
@@ -246,7 +267,7 @@ def replay(ctx, path):
     if binary is None:
         print(blog)
         return 2
-    if "case" not in rp and "rcase" not in rp and "case32" not in rp and "tcase" not in rp:
+    if not any(k in rp for k in ("case", "rcase", "case32", "tcase", "icase", "hcase")):
         print("replay names a broken obligation, not an input: %s" % rp.get("obligation"))
         ok, failures = vlib.proof_stage(ctx, TARGETS, PROPS)
         return 0 if ok else 1
@@ -254,7 +275,9 @@ def replay(ctx, path):
     res = vlib.eval_shards(sorted(glob.glob(os.path.join(ctx.dir, "replay_*.v")) +
                                   glob.glob(os.path.join(ctx.dir, "rreplay_*.v")) +
                                   glob.glob(os.path.join(ctx.dir, "replay32_*.v")) +
-                                  glob.glob(os.path.join(ctx.dir, "treplay_*.v"))))
+                                  glob.glob(os.path.join(ctx.dir, "treplay_*.v")) +
+                                  glob.glob(os.path.join(ctx.dir, "ireplay_*.v")) +
+                                  glob.glob(os.path.join(ctx.dir, "hreplay_*.v"))))
     agree = all(r["ok"] for r in res)
     direct, iters = [], []
     if rp.get("case"):
